@@ -454,7 +454,11 @@ func (r *rig) submit(v *harness.Verdict, s *world.ChainSpec) {
 		r.mu.Lock()
 		r.want[string(lv)] = append(r.want[string(lv)], b.ExtraData())
 		k := chainKey(b.Full)
-		r.chainKeyOf[string(lv)] = k
+		if _, dup := r.chainKeyOf[string(lv)]; !dup {
+			// a later submission of the very same certificate (deterministic RSA signatures make that possible)
+			// through another path is a duplicate: the backend keeps the first entry and its chain
+			r.chainKeyOf[string(lv)] = k
+		}
 		r.mu.Unlock()
 		if _, ok := r.store.M[k]; !ok && len(r.damaged) == 0 && !r.addFault {
 			v.Failf("harness-chain-key", "the harness cannot predict the storage key of the issuance chain (store has %d rows)", r.store.Len())
